@@ -76,14 +76,14 @@ package creds
 //@   props C10 C17
 //@   modifies ghost urlbool[key]
 //@   ensures result == urlbool(key)
-//@   at call (*config.URLConfig).Get:1 assert arg0__ == c && arg1__ == prefix && arg2__ == rawurl && arg3__ == key
+//@   at call (*config.URLConfig).Get:1 assert arg0__ == c && arg1__ == old(prefix) && arg2__ == old(rawurl) && arg3__ == old(key)
 // Checked although the contract is assumed: the URL-specific lookup is made
 // for the URL, the section and the key that were asked for (lower-cased).
 //@ func (*github.com/git-lfs/git-lfs/v3/config.URLConfig).Get
 //@   assumed
 //@   props C10 C17
 //@   noeffect
-//@   at call (*config.URLConfig).getAll:1 assert arg0__ == c && arg1__ == str_lower(old(prefix)) && arg2__ == rawurl && arg3__ == str_lower(old(key))
+//@   at call (*config.URLConfig).getAll:1 assert arg0__ == c && arg1__ == str_lower(old(prefix)) && arg2__ == old(rawurl) && arg3__ == str_lower(old(key))
 //@ func NewCredentialHelpers
 //@   assumed
 //@   props C10
